@@ -1,5 +1,5 @@
 use crate::{
-    geometry::{angle_consts::*, Angle, Point},
+    geometry::{angle_consts::*, Angle, Point, PointExt},
     primitives::common::{LineSide, OriginLinearEquation, PointType},
 };
 
@@ -75,9 +75,15 @@ impl PlaneSector {
         let half_plane_left = OriginLinearEquation::with_angle(angle_end);
 
         // For sweep angles below the angular resolution both half planes share the same boundary
-        // line. Their intersection would be the entire line through the center (in both
-        // directions) instead of a ray, so such a degenerate sector is treated as empty.
-        let operation = if operation == Operation::Intersection && half_plane_left == half_plane_right
+        // line (their normal vectors are parallel and point in the same direction, but are not
+        // necessarily equal because of the integer scaling). Their intersection would be the
+        // entire line through the center (in both directions) instead of a ray, so such a
+        // degenerate sector is treated as empty.
+        let normal_left = half_plane_left.normal_vector;
+        let normal_right = half_plane_right.normal_vector;
+        let operation = if operation == Operation::Intersection
+            && normal_left.determinant(normal_right) == 0
+            && normal_left.dot_product(normal_right) > 0
         {
             Operation::Empty
         } else {
